@@ -295,6 +295,56 @@ func main() {
 	order(parse(fset, filepath.Join(repo, "src/consensus/base/hash.go")), "Data2CommonHash", "data2CommonHashCalls")
 	order(parse(fset, filepath.Join(repo, "src/consensus/logical/vrf_worker.go")), "genProve", "genProveCalls")
 
+	// vrf_worker.go: status constants, the two compare-and-swap transitions, the workingOn condition
+	{
+		wf := parse(fset, filepath.Join(repo, "src/consensus/logical/vrf_worker.go"))
+		src, _ := os.ReadFile(filepath.Join(repo, "src/consensus/logical/vrf_worker.go"))
+		text := func(n ast.Node) string {
+			return strings.Join(strings.Fields(string(src[fset.Position(n.Pos()).Offset:fset.Position(n.End()).Offset])), " ")
+		}
+		var consts []string
+		for _, d := range wf.Decls {
+			if g, ok := d.(*ast.GenDecl); ok && g.Tok == token.CONST {
+				for _, sp := range g.Specs {
+					vs := sp.(*ast.ValueSpec)
+					for i, nm := range vs.Names {
+						if i < len(vs.Values) {
+							consts = append(consts, nm.Name+"="+text(vs.Values[i]))
+						}
+					}
+				}
+			}
+		}
+		fmt.Fprintf(&b, "\n/-- vrf_worker.go: status constants -/\ndef workerConsts : List String :=\n  %s\n", leanList(consts))
+		cas := func(fname string) []string {
+			var out []string
+			if fn := funcByName(wf, fname); fn != nil {
+				ast.Inspect(fn.Body, func(n ast.Node) bool {
+					if c, ok := n.(*ast.CallExpr); ok && selName(c.Fun) == "atomic.CompareAndSwapInt32" && len(c.Args) == 3 {
+						out = append(out, text(c.Args[1]), text(c.Args[2]))
+					}
+					return true
+				})
+			}
+			return out
+		}
+		fmt.Fprintf(&b, "/-- markProposed: CompareAndSwap(old, new) -/\ndef markProposedCAS : List String :=\n  %s\n", leanList(cas("markProposed")))
+		fmt.Fprintf(&b, "/-- markSuccess: CompareAndSwap(old, new) -/\ndef markSuccessCAS : List String :=\n  %s\n", leanList(cas("markSuccess")))
+		ret := func(fname string) string {
+			r := ""
+			if fn := funcByName(wf, fname); fn != nil {
+				ast.Inspect(fn.Body, func(n ast.Node) bool {
+					if rs, ok := n.(*ast.ReturnStmt); ok && len(rs.Results) == 1 {
+						r = text(rs.Results[0])
+					}
+					return true
+				})
+			}
+			return r
+		}
+		fmt.Fprintf(&b, "/-- workingOn / timeout return expressions -/\ndef workingOnExpr : String := %s\ndef timeoutExpr : String := %s\n", leanStr(ret("workingOn")), leanStr(ret("timeout")))
+	}
+
 	// every non-test call site of VRFProof2Hash / decodeProof: padded first?
 	type site struct {
 		file, fn, callee string
